@@ -113,6 +113,8 @@ def run_history(fx, slog, rl, rec, r, retries, ncalls, script, sername, hh):
     kinds = []
     nonces = []
     ok = True
+    reuse_batch = r.random() < 0.5          # half of the histories send all their batches through ONE BatchProxy (documented re-use)
+    shared_batch = P.client.BatchProxy(p)
     clean = True       # the previous call met no fault and got its own answer: nothing stale can be in flight
     del rl.anomalies[:]
     try:
@@ -136,11 +138,11 @@ def run_history(fx, slog, rl, rec, r, retries, ncalls, script, sername, hh):
                 elif kind == "oneway":
                     outcome = ("ret", p.fire(tok))
                 elif kind == "batch":
-                    b = P.client.BatchProxy(p)
+                    b = shared_batch if reuse_batch else P.client.BatchProxy(p)
                     b.echo(tok)
                     outcome = ("ret", list(b()))
                 elif kind == "batchow":
-                    b = P.client.BatchProxy(p)
+                    b = shared_batch if reuse_batch else P.client.BatchProxy(p)
                     b.echo(tok)
                     outcome = ("ret", b(oneway=True))
                 elif kind == "attr":
